@@ -528,13 +528,19 @@ class CrossEntropy(Op):
             ign_mode = "none"
         r = rng.random()
         mult = 1.0 if r < 0.3 else loguniform(rng, 1 / 16, 4)
-        return {"B": B, "V": V, "reduction": rng.choice(["mean", "sum"]), "mult": mult, "ignore_mode": ign_mode,
-                "ignore_index": -100 if ign_mode != "custom" else rng.choice([0, V - 1])}
+        cfg = {"B": B, "V": V, "reduction": rng.choice(["mean", "sum"]), "mult": mult, "ignore_mode": ign_mode,
+               "ignore_index": -100 if ign_mode != "custom" else rng.choice([0, V - 1])}
+        if rng.random() < 0.15:
+            # class-PROBABILITY ("soft label") targets, the other target kind F.cross_entropy documents: same shape as the logits
+            cfg.update(target_kind="prob", ignore_mode="none", ignore_index=-100)
+        return cfg
 
     def build(self, cfg, gen, dtype):
         B, V = cfg["B"], cfg["V"]
         x = _randn(gen, ([B] if B is not None else []) + [V], dtype)
         t = torch.randint(0, V, ([B] if B is not None else []), generator=gen)
+        if cfg.get("target_kind") == "prob":
+            return {"input": x, "target": torch.softmax(_randn(gen, list(x.shape), torch.float64), -1).to(dtype)}
         im, ii = cfg["ignore_mode"], cfg["ignore_index"]
         if B is not None:
             if im in ("some", "custom"):
